@@ -2,7 +2,7 @@
    Only theorem statements; every proof is `exact <lemma>` from theories/{CmsLogProofs,LogLaw}.v. *)
 From Coq Require Import ZArith List Bool Reals Lra Lia.
 From Coq Require Import Floats.PrimFloat.
-From Sketchnu Require Import Machine Consts Ngram CmsLog CmsLogProofs LogLaw.
+From Sketchnu Require Import Machine Consts Ngram CmsLog CmsLogProofs LogLaw CmsLogFloat.
 Import ListNotations.
 Open Scope Z_scope.
 
@@ -95,6 +95,21 @@ Theorem C06_merge_lower_grid : forall nr umax max_count decode castc,
   merge_grid_b nr umax max_count decode castc = true -> merge_lower_ok nr umax max_count decode castc.
 Proof. exact merge_grid_lower_ok. Qed.
 Print Assumptions C06_merge_lower_grid.
+
+(* the same without any premise on the cell rule: one linear evaluation on the decode table of the
+   configuration replaces it (through the standard library's specification of binary64 and Flocq) *)
+Theorem C06_lower_float :
+  forall (width depth : nat) (bucket : nat -> key -> nat) (nr umax max_count : Z)
+         (powneg decode : Z -> float) (castc : Z -> Z),
+  (forall r k, (bucket r k < width)%nat) ->
+  (forall x, 0 <= x <= umax -> castc x = x) ->
+  float_tables_ok_b nr umax max_count decode = true ->
+  powneg 0 = f_one ->
+  forall (h : lhist) (k : key), lwf h ->
+  Z.min (ltruth h k) (nr + 1) <=
+  lquery depth bucket umax (leval width depth bucket nr umax max_count powneg decode castc h) k.
+Proof. exact CmsLogFloat.C06_lower_float. Qed.
+Print Assumptions C06_lower_float.
 
 (* ---------------------------------------------------------------- (d) draws are never recycled *)
 (* the batch size is one number in the source: the test in _rand, the refill, both constructors *)
@@ -312,6 +327,10 @@ Proof. vm_compute. repeat split; reflexivity. Qed.
 
 Example C06_merge_nonvacuous : merge_lower_ok 15 255 4294967295 dc8 wrap8.
 Proof. apply merge_grid_lower_ok. vm_cast_no_check (eq_refl true). Qed.
+
+Example C06_float_tables_nonvacuous :
+  float_tables_ok_b 15 255 4294967295 dc8 = true /\ float_tables_empty_ok_b 15 255 4294967295 dc8 = true.
+Proof. vm_compute. split; reflexivity. Qed.
 
 Example C06_reserved_nonvacuous :
   log_counter 15 255 pn8 3 rs_ex 13 = (16, snd (rand rs_ex)) /\ rptr (snd (rand rs_ex)) = 1 /\
